@@ -8,8 +8,9 @@ FUNCTIONS = ([_N + "NetworkServiceAccessPoint.process_npdu[router, from network 
              + [_N + "NetworkServiceElement.WhoIsRouterToNetwork[router, asked on network %d]" % n for n in (1, 2, 3)])
 LEMMAS = []
 MIN_OBLIGATIONS = 15
-BOUNDED = None
+BOUNDED = "bounded.c06"
 ASSUMPTIONS = [
+    "whole-system complement: real network-layer nodes on bacpypes.vlan topologies (bounded stage, bounded/net_sim.py): fixed and random tree topologies of 2..8 networks, routers with 2..4 ports, cold / warm caches, stations with unknown network number, every (source, destination kind, destination), replies to the shown source; small cyclic topologies for termination",
     "one router shape (three attached networks, an application on network 1, optionally a known path to network 5 through a router on network 2) and one station shape (network 1); destinations are concrete representatives of every class (none, this station, station / broadcast on each attached network, global broadcast, station / broadcast behind the known router, unknown network), with and without source routing; hop count is any value 0..255, the payload symbolic behind a fixed two-octet APDU header",
     "frames put on an attached network (NetworkAdapter.process_npdu), deliveries to the application (Server.response) and traffic with the network service element are ghost-traced externals; the RouterInfoCache is the real one (C19)",
     "excluded by precondition: a packet for a network whose known router sits on the arrival network itself -- the WhoIsRouterToNetwork contract shows this router never advertises such a path, so a correct sender does not hand it that packet",
